@@ -48,6 +48,14 @@ def fam_sid_strings(v, n):
         ops.append({"op": "sid", "s": s})
         if v.rng.random() < 0.15:
             ops.append({"op": "sid_call", "from": {"s": s}, "m": v.rng.choice(["typed", "len", "uri", "repr"])})
+    # Sid objects handed to the factory (as Finders and Getters do), then the plain string again
+    for _ in range(max(3, n // 40)):
+        label, s, fields = v.typed_sid(search=0.5)
+        others = [l for l in v.labels if len(v.tdict[l]) == len(fields)]
+        forced = v.rng.choice(others + [label])
+        ops.append({"op": "sid", "obj": {"s": forced + ":" + s}})
+        ops.append({"op": "sid", "s": s})
+        ops.append({"op": "sid", "obj": {"s": s}})
     for s in ["", ":", "::", "?", "a:b:c", "hamlet\n", "hamlet", "hamlet/a/char\n", "x:y:z?a=b", "asset:hamlet/a",
               "hamlet/s/sq001/sh0010/anim/v001/w/ma\n", "hamlet/s/sq٠٠١", ":hamlet", "project:", "project:hamlet:x"]:
         ops.append({"op": "sid", "s": s})
@@ -384,6 +392,8 @@ def fam_listfind(v, n):
             s = sg.search(base=base, allow_gt=rng.random() < 0.35, malformed=0.03)
             m = rng.choice(["find", "find", "find", "find_one", "exists"])
             ops.append({"op": "find_list", "l": L, "s": s, "m": m, **flags})
+            if ">" in s and rng.random() < 0.5:      # the same expression asked again
+                ops.append({"op": "find_list", "l": L, "s": s, "m": "find", **flags})
             if rng.random() < 0.1:
                 item = rng.choice(L)
                 ops.append({"op": "sid_call", "from": {"s": item}, "m": "match", "search": s})
@@ -446,6 +456,25 @@ def tree_universe(v, nleaf=None):
             base = (label, fields)
         if (label, fields) not in leaves:
             leaves.append((label, fields))
+        if rng.random() < 0.4:
+            # a "depth sibling": a leaf type of the same basetype with another number of levels,
+            # sharing every common key value (e.g. .../p/abc and .../p/<node>/abc)
+            bt = label.split(v.sep)[0]
+            others = [l for l in leaf_labels if l.split(v.sep)[0] == bt and len(v.tdict[l]) != len(fields)]
+            if others:
+                l2 = rng.choice(others)
+                have = dict(fields)
+                f2 = []
+                ok = True
+                for k, r in v.tdict[l2]:
+                    if k in have and (re_is_free(r) or have[k] in [w for w in __import__("gen").re_words(r, rng)]):
+                        f2.append((k, have[k]))
+                    elif re_is_free(r):
+                        f2.append((k, rng.choice(names)))
+                    else:
+                        f2.append((k, v.value((k, r), concrete_only=True)))
+                if (l2, f2) not in leaves:
+                    leaves.append((l2, f2))
     return leaves
 
 
@@ -524,6 +553,13 @@ def fam_history(v, n, model):
         for label, fields in leaves:
             for i in range(1, len(fields) + 1):
                 pool.append("/".join(val for _, val in fields[:i]))
+        # extension siblings: same directory and stem, another extension (they share one sidecar)
+        from gen import re_words
+        for label, fields in leaves:
+            lk, lv = fields[-1]
+            alts = [w for w in re_words(dict(v.tdict[label])[lk], rng) if w not in ("*", ">") and w not in v.aliases and w != lv]
+            if alts:
+                pool.append("/".join([val for _, val in fields[:-1]] + [rng.choice(alts)]))
         pool = sorted(set(pool)) + ["junk", "hamlet/a/char/x/model/v001/w"]   # untyped, path-less (state level)
         ops.append({"op": "world", "w": wid, "do": "new"})
         for _ in range(rng.randint(10, 30)):
